@@ -11,9 +11,14 @@ from fractions import Fraction
 class Failure:
     """a property violation found on one path.  `sig` is the known-findings signature (which call site /
     input class fails), `why` a human description (may mention realised values)."""
-    def __init__(self, sig, why=''):
-        self.sig = str(sig)
+    def __init__(self, sig, why='', classify=None):
+        self.sig = sig
+        # NOTE: `why` must not format symbolic values eagerly (repr of a symbolic realises it IN the path tree and
+        # turns the failing region into an enumeration): pass a zero-argument callable, evaluated after detach.
         self.why = why
+        # optional classify(part, concrete_inputs) -> sig: computes the signature CONCRETELY from the realised
+        # inputs (so that telling a known defect from a new one costs no forks on the symbolic path)
+        self.classify = classify
 
     def __repr__(self):
         return "Failure(%r, %r)" % (self.sig, self.why)
@@ -130,6 +135,10 @@ class ConcreteSym:
     def cover(self, tag):
         self.tags[tag] = self.tags.get(tag, 0) + 1
 
+    def cover_if(self, tag, *conds):
+        if all(conds):
+            self.cover(tag)
+
     def note(self, key, value):
         self.notes[key] = value
 
@@ -138,6 +147,8 @@ def run_concrete(harness, part, inputs):
     """run harness on concrete inputs; returns (Failure|None, tags, notes).  AssumeFailed propagates."""
     cs = ConcreteSym(inputs)
     res = harness(cs, part)
+    if res is not None and callable(res.why):
+        res.why = res.why()
     return res, cs.tags, cs.notes
 
 
